@@ -33,7 +33,13 @@ ForLang(L, base) ==
       ex == [j \in 1..n2 |-> Req(L, base + n1 + j, ExText(W, S, ExLen, j - 1))]
       rnd == [r \in 1..RandN |-> Req(L, base + n1 + n2 + r,
                  RandText(W, Seps, Start(Seed, Len(L) + Len(W), r), RandLen - (r % 3)))]
-  IN singles \o ex \o rnd
+      \* every text of CoreLen words over the core alphabet x blank / comma (C09: every arrangement of small numbers, ambiguous
+      \* words, linking words, ordinary words, ordinals around each other)
+      CoreLen == IF "corelen" \in DOMAIN Params THEN Params.corelen ELSE 0
+      CS == <<" ", ", ">>
+      n3 == IF CoreLen = 0 THEN 0 ELSE ExCount(CoreWords[L], CS, CoreLen)
+      core == [j \in 1..n3 |-> Req(L, base + n1 + n2 + RandN + j, ExText(CoreWords[L], CS, CoreLen, j - 1))]
+  IN singles \o ex \o rnd \o core
 
 RECURSIVE All(_, _)
 All(k, base) == IF k > Len(LangsToDo) THEN <<>>
